@@ -181,7 +181,9 @@ def check_scenario(rng, seed):
     feasible = evts * acts <= nag
     _r.seed(seed)
     try:
-        sc = scenario.generate_scenario(evts, acts, 10, 5, 20, list(agents))
+        delay = rng.choice([10, 10, 0, 1])
+        W["delay"] = delay
+        sc = scenario.generate_scenario(evts, acts, delay, rng.choice([5, 0]), rng.choice([20, 0]), list(agents))
     except ValueError as e:
         if feasible:
             P.append(("scenario:exception:ValueError", "generate_scenario(%d events x %d actions, %d agents) raised ValueError: %s" % (evts, acts, nag, e)))
